@@ -73,6 +73,7 @@ type Exec struct {
 	curArgs              []*Val
 	iptrs                map[int]*Loc
 	sumIDs               map[string]int
+	callRes              map[string]map[ssa.Instruction]*Val
 	loopEntry            map[*loop]map[*ssa.Phi]*Val
 	iptrTerm             map[int]*smt.Term
 	callCovers           int
